@@ -21,8 +21,15 @@ import traceback
 VERIF = os.path.dirname(os.path.dirname(os.path.abspath(__file__)))
 REPO = os.environ.get('VERIF_REPO', '/repo')
 SRC = os.path.join(REPO, 'src')
-EVIDENCE_DIR = os.path.join(VERIF, 'evidence')
-REPLAY_DIR = os.path.join(VERIF, 'replays')
+if os.environ.get('VERIF_NO_EVIDENCE'):
+    # self-validation runs against mutated copies must not touch the
+    # committed evidence
+    _scratch = os.path.join(REPO if REPO != '/repo' else '/tmp', '_verif_out')
+    EVIDENCE_DIR = os.path.join(_scratch, 'evidence')
+    REPLAY_DIR = os.path.join(_scratch, 'replays')
+else:
+    EVIDENCE_DIR = os.path.join(VERIF, 'evidence')
+    REPLAY_DIR = os.path.join(VERIF, 'replays')
 WORK_DIR = os.path.join(VERIF, '.work')
 KNOWN_FILE = os.path.join(VERIF, 'known_findings.json')
 GUARD = 'PYTHON_SOCKETIO_VERIF'
@@ -133,6 +140,11 @@ class Ctx:
         self.required = {}         # counter name -> minimum (else inconclusive)
         self._known = load_known()
         self._lock = threading.Lock()
+
+    def case_rng(self, k):
+        """Independent PRNG for case number k of this (seed, shard): a case
+        can be regenerated for replay from (seed, shard, k) alone."""
+        return random.Random('%d/%d/%d' % (self.seed, self.shard, k))
 
     # -- exploration accounting -------------------------------------------
     def time_left(self):
